@@ -93,6 +93,7 @@ package signal
 //@   theory defined
 //@   pure
 //@   variant C20 channels == 0 || sliceLen == 0
+//@   base-excludes channels == 0
 //@   requires 0 <= sliceLen && sliceLen <= pow2(52) && 0 <= channels
 //@   rndhint cdiv(sliceLen, channels)
 //@   ensures[count: C01] channels >= 1 ==> result == cdiv(sliceLen, channels)
@@ -198,7 +199,8 @@ package signal
 
 //@ func Write[S,D](src, dst)
 //@   props C01 C12
-//@   variant C20 len(dst.data) == 0 || len(src) == 0
+//@   variant C20 len(dst.data) == 0 || len(src) == 0 || dst.channels == 0
+//@   base-excludes dst.channels == 0
 //@   hint cdiv_def(0, dst.channels)
 //@   requires wf(dst) && disjoint(src, dst)
 //@   let n = min(len(dst.data), len(src))
@@ -217,7 +219,8 @@ package signal
 
 //@ func Read[S,D](src, dst)
 //@   props C01
-//@   variant C20 len(src.data) == 0 || len(dst) == 0
+//@   variant C20 len(src.data) == 0 || len(dst) == 0 || src.channels == 0
+//@   base-excludes src.channels == 0
 //@   hint cdiv_def(0, src.channels)
 //@   requires wf(src) && disjoint(src, dst)
 //@   let n = min(len(src.data), len(dst))
@@ -289,7 +292,8 @@ package signal
 
 //@ func FloatAsFloat[S,D](src, dst)
 //@   props C05
-//@   variant C20 len(src.data) == 0 || len(dst.data) == 0
+//@   variant C20 len(src.data) == 0 || len(dst.data) == 0 || src.channels == 0 || dst.channels == 0
+//@   base-excludes src.channels == 0 || dst.channels == 0
 //@   requires wf(src) && wf(dst) && disjoint(src, dst)
 //@   panics-iff[channels: C15] src.channels != dst.channels
 //@   let n = min(len(src.data), len(dst.data))
@@ -310,13 +314,14 @@ package signal
 
 //@ func FloatAsSigned[S,D](src, dst)
 //@   props C05
-//@   variant C20 len(src.data) == 0 || len(dst.data) == 0
+//@   variant C20 len(src.data) == 0 || len(dst.data) == 0 || src.channels == 0 || dst.channels == 0
+//@   base-excludes src.channels == 0 || dst.channels == 0
 //@   requires wf(src) && wf(dst) && disjoint(src, dst)
 //@   panics-iff[channels: C15] src.channels != dst.channels
 //@   let n = min(len(src.data), len(dst.data))
 //@   hint cdiv_def(len(src.data), src.channels)
 //@   hint cdiv_def(len(dst.data), dst.channels)
-//@   ensures[values: C05] forall(k, 0, n, at(dst, k) == K(old(at(src, k))))
+//@   ensures[values: C05 C08] forall(k, 0, n, at(dst, k) == K(old(at(src, k))))
 //@   ensures[frame: C05 C19 C20] sameExcept(dst, 0, n)
 //@   ensures[count: C05 C20] result == min(ite(src.channels == 0, 0, cdiv(len(src.data), src.channels)),
 //@     | ite(dst.channels == 0, 0, cdiv(len(dst.data), dst.channels)))
@@ -324,20 +329,21 @@ package signal
 //@   ensures[inert: C20] (len(src.data) == 0 || len(dst.data) == 0) ==> result == 0 && heapSame(dst)
 //@   modifies H(dst)
 //@   loop 1 kernel
-//@     invariant 0 <= $i && $i <= n
-//@     invariant forall(k, 0, $i, at(dst, k) == K(old(at(src, k))))
+//@     invariant[bounds: C05 C08] 0 <= $i && $i <= n
+//@     invariant[values: C05 C08] forall(k, 0, $i, at(dst, k) == K(old(at(src, k))))
 //@     invariant sameExcept(dst, 0, $i)
 //@     decreases n - $i
 
 //@ func FloatAsUnsigned[S,D](src, dst)
 //@   props C05
-//@   variant C20 len(src.data) == 0 || len(dst.data) == 0
+//@   variant C20 len(src.data) == 0 || len(dst.data) == 0 || src.channels == 0 || dst.channels == 0
+//@   base-excludes src.channels == 0 || dst.channels == 0
 //@   requires wf(src) && wf(dst) && disjoint(src, dst)
 //@   panics-iff[channels: C15] src.channels != dst.channels
 //@   let n = min(len(src.data), len(dst.data))
 //@   hint cdiv_def(len(src.data), src.channels)
 //@   hint cdiv_def(len(dst.data), dst.channels)
-//@   ensures[values: C05] forall(k, 0, n, at(dst, k) == K(old(at(src, k))))
+//@   ensures[values: C05 C08] forall(k, 0, n, at(dst, k) == K(old(at(src, k))))
 //@   ensures[frame: C05 C19 C20] sameExcept(dst, 0, n)
 //@   ensures[count: C05 C20] result == min(ite(src.channels == 0, 0, cdiv(len(src.data), src.channels)),
 //@     | ite(dst.channels == 0, 0, cdiv(len(dst.data), dst.channels)))
@@ -345,20 +351,21 @@ package signal
 //@   ensures[inert: C20] (len(src.data) == 0 || len(dst.data) == 0) ==> result == 0 && heapSame(dst)
 //@   modifies H(dst)
 //@   loop 1 kernel
-//@     invariant 0 <= $i && $i <= n
-//@     invariant forall(k, 0, $i, at(dst, k) == K(old(at(src, k))))
+//@     invariant[bounds: C05 C08] 0 <= $i && $i <= n
+//@     invariant[values: C05 C08] forall(k, 0, $i, at(dst, k) == K(old(at(src, k))))
 //@     invariant sameExcept(dst, 0, $i)
 //@     decreases n - $i
 
 //@ func SignedAsFloat[S,D](src, dst)
 //@   props C05
-//@   variant C20 len(src.data) == 0 || len(dst.data) == 0
+//@   variant C20 len(src.data) == 0 || len(dst.data) == 0 || src.channels == 0 || dst.channels == 0
+//@   base-excludes src.channels == 0 || dst.channels == 0
 //@   requires wf(src) && wf(dst) && disjoint(src, dst)
 //@   panics-iff[channels: C15] src.channels != dst.channels
 //@   let n = min(len(src.data), len(dst.data))
 //@   hint cdiv_def(len(src.data), src.channels)
 //@   hint cdiv_def(len(dst.data), dst.channels)
-//@   ensures[values: C05] forall(k, 0, n, at(dst, k) == K(old(at(src, k))))
+//@   ensures[values: C05 C09] forall(k, 0, n, at(dst, k) == K(old(at(src, k))))
 //@   ensures[frame: C05 C19 C20] sameExcept(dst, 0, n)
 //@   ensures[count: C05 C20] result == min(ite(src.channels == 0, 0, cdiv(len(src.data), src.channels)),
 //@     | ite(dst.channels == 0, 0, cdiv(len(dst.data), dst.channels)))
@@ -366,20 +373,21 @@ package signal
 //@   ensures[inert: C20] (len(src.data) == 0 || len(dst.data) == 0) ==> result == 0 && heapSame(dst)
 //@   modifies H(dst)
 //@   loop 1 kernel
-//@     invariant 0 <= $i && $i <= n
-//@     invariant forall(k, 0, $i, at(dst, k) == K(old(at(src, k))))
+//@     invariant[bounds: C05 C09] 0 <= $i && $i <= n
+//@     invariant[values: C05 C09] forall(k, 0, $i, at(dst, k) == K(old(at(src, k))))
 //@     invariant sameExcept(dst, 0, $i)
 //@     decreases n - $i
 
 //@ func UnsignedAsFloat[S,D](src, dst)
 //@   props C05
-//@   variant C20 len(src.data) == 0 || len(dst.data) == 0
+//@   variant C20 len(src.data) == 0 || len(dst.data) == 0 || src.channels == 0 || dst.channels == 0
+//@   base-excludes src.channels == 0 || dst.channels == 0
 //@   requires wf(src) && wf(dst) && disjoint(src, dst)
 //@   panics-iff[channels: C15] src.channels != dst.channels
 //@   let n = min(len(src.data), len(dst.data))
 //@   hint cdiv_def(len(src.data), src.channels)
 //@   hint cdiv_def(len(dst.data), dst.channels)
-//@   ensures[values: C05] forall(k, 0, n, at(dst, k) == K(old(at(src, k))))
+//@   ensures[values: C05 C09] forall(k, 0, n, at(dst, k) == K(old(at(src, k))))
 //@   ensures[frame: C05 C19 C20] sameExcept(dst, 0, n)
 //@   ensures[count: C05 C20] result == min(ite(src.channels == 0, 0, cdiv(len(src.data), src.channels)),
 //@     | ite(dst.channels == 0, 0, cdiv(len(dst.data), dst.channels)))
@@ -387,20 +395,21 @@ package signal
 //@   ensures[inert: C20] (len(src.data) == 0 || len(dst.data) == 0) ==> result == 0 && heapSame(dst)
 //@   modifies H(dst)
 //@   loop 1 kernel
-//@     invariant 0 <= $i && $i <= n
-//@     invariant forall(k, 0, $i, at(dst, k) == K(old(at(src, k))))
+//@     invariant[bounds: C05 C09] 0 <= $i && $i <= n
+//@     invariant[values: C05 C09] forall(k, 0, $i, at(dst, k) == K(old(at(src, k))))
 //@     invariant sameExcept(dst, 0, $i)
 //@     decreases n - $i
 
 //@ func SignedAsSigned[S,D](src, dst)
 //@   props C05
-//@   variant C20 len(src.data) == 0 || len(dst.data) == 0
+//@   variant C20 len(src.data) == 0 || len(dst.data) == 0 || src.channels == 0 || dst.channels == 0
+//@   base-excludes src.channels == 0 || dst.channels == 0
 //@   requires wf(src) && wf(dst) && disjoint(src, dst)
 //@   panics-iff[channels: C15] src.channels != dst.channels
 //@   let n = min(len(src.data), len(dst.data))
 //@   hint cdiv_def(len(src.data), src.channels)
 //@   hint cdiv_def(len(dst.data), dst.channels)
-//@   ensures[values: C05] forall(k, 0, n, at(dst, k) == K(old(at(src, k))))
+//@   ensures[values: C05 C06 C07] forall(k, 0, n, at(dst, k) == K(old(at(src, k))))
 //@   ensures[frame: C05 C19 C20] sameExcept(dst, 0, n)
 //@   ensures[count: C05 C20] result == min(ite(src.channels == 0, 0, cdiv(len(src.data), src.channels)),
 //@     | ite(dst.channels == 0, 0, cdiv(len(dst.data), dst.channels)))
@@ -408,25 +417,26 @@ package signal
 //@   ensures[inert: C20] (len(src.data) == 0 || len(dst.data) == 0) ==> result == 0 && heapSame(dst)
 //@   modifies H(dst)
 //@   loop 1 kernel
-//@     invariant 0 <= $i && $i <= n
-//@     invariant forall(k, 0, $i, at(dst, k) == K(old(at(src, k))))
+//@     invariant[bounds: C05 C06 C07] 0 <= $i && $i <= n
+//@     invariant[values: C05 C06 C07] forall(k, 0, $i, at(dst, k) == K(old(at(src, k))))
 //@     invariant sameExcept(dst, 0, $i)
 //@     decreases n - $i
 //@   loop 2 kernel
-//@     invariant 0 <= $i && $i <= n
-//@     invariant forall(k, 0, $i, at(dst, k) == K(old(at(src, k))))
+//@     invariant[bounds: C05 C06 C07] 0 <= $i && $i <= n
+//@     invariant[values: C05 C06 C07] forall(k, 0, $i, at(dst, k) == K(old(at(src, k))))
 //@     invariant sameExcept(dst, 0, $i)
 //@     decreases n - $i
 
 //@ func SignedAsUnsigned[S,D](src, dst)
 //@   props C05
-//@   variant C20 len(src.data) == 0 || len(dst.data) == 0
+//@   variant C20 len(src.data) == 0 || len(dst.data) == 0 || src.channels == 0 || dst.channels == 0
+//@   base-excludes src.channels == 0 || dst.channels == 0
 //@   requires wf(src) && wf(dst) && disjoint(src, dst)
 //@   panics-iff[channels: C15] src.channels != dst.channels
 //@   let n = min(len(src.data), len(dst.data))
 //@   hint cdiv_def(len(src.data), src.channels)
 //@   hint cdiv_def(len(dst.data), dst.channels)
-//@   ensures[values: C05] forall(k, 0, n, at(dst, k) == K(old(at(src, k))))
+//@   ensures[values: C05 C06 C07] forall(k, 0, n, at(dst, k) == K(old(at(src, k))))
 //@   ensures[frame: C05 C19 C20] sameExcept(dst, 0, n)
 //@   ensures[count: C05 C20] result == min(ite(src.channels == 0, 0, cdiv(len(src.data), src.channels)),
 //@     | ite(dst.channels == 0, 0, cdiv(len(dst.data), dst.channels)))
@@ -434,25 +444,26 @@ package signal
 //@   ensures[inert: C20] (len(src.data) == 0 || len(dst.data) == 0) ==> result == 0 && heapSame(dst)
 //@   modifies H(dst)
 //@   loop 1 kernel
-//@     invariant 0 <= $i && $i <= n
-//@     invariant forall(k, 0, $i, at(dst, k) == K(old(at(src, k))))
+//@     invariant[bounds: C05 C06 C07] 0 <= $i && $i <= n
+//@     invariant[values: C05 C06 C07] forall(k, 0, $i, at(dst, k) == K(old(at(src, k))))
 //@     invariant sameExcept(dst, 0, $i)
 //@     decreases n - $i
 //@   loop 2 kernel
-//@     invariant 0 <= $i && $i <= n
-//@     invariant forall(k, 0, $i, at(dst, k) == K(old(at(src, k))))
+//@     invariant[bounds: C05 C06 C07] 0 <= $i && $i <= n
+//@     invariant[values: C05 C06 C07] forall(k, 0, $i, at(dst, k) == K(old(at(src, k))))
 //@     invariant sameExcept(dst, 0, $i)
 //@     decreases n - $i
 
 //@ func UnsignedAsSigned[S,D](src, dst)
 //@   props C05
-//@   variant C20 len(src.data) == 0 || len(dst.data) == 0
+//@   variant C20 len(src.data) == 0 || len(dst.data) == 0 || src.channels == 0 || dst.channels == 0
+//@   base-excludes src.channels == 0 || dst.channels == 0
 //@   requires wf(src) && wf(dst) && disjoint(src, dst)
 //@   panics-iff[channels: C15] src.channels != dst.channels
 //@   let n = min(len(src.data), len(dst.data))
 //@   hint cdiv_def(len(src.data), src.channels)
 //@   hint cdiv_def(len(dst.data), dst.channels)
-//@   ensures[values: C05] forall(k, 0, n, at(dst, k) == K(old(at(src, k))))
+//@   ensures[values: C05 C06 C07] forall(k, 0, n, at(dst, k) == K(old(at(src, k))))
 //@   ensures[frame: C05 C19 C20] sameExcept(dst, 0, n)
 //@   ensures[count: C05 C20] result == min(ite(src.channels == 0, 0, cdiv(len(src.data), src.channels)),
 //@     | ite(dst.channels == 0, 0, cdiv(len(dst.data), dst.channels)))
@@ -460,25 +471,26 @@ package signal
 //@   ensures[inert: C20] (len(src.data) == 0 || len(dst.data) == 0) ==> result == 0 && heapSame(dst)
 //@   modifies H(dst)
 //@   loop 1 kernel
-//@     invariant 0 <= $i && $i <= n
-//@     invariant forall(k, 0, $i, at(dst, k) == K(old(at(src, k))))
+//@     invariant[bounds: C05 C06 C07] 0 <= $i && $i <= n
+//@     invariant[values: C05 C06 C07] forall(k, 0, $i, at(dst, k) == K(old(at(src, k))))
 //@     invariant sameExcept(dst, 0, $i)
 //@     decreases n - $i
 //@   loop 2 kernel
-//@     invariant 0 <= $i && $i <= n
-//@     invariant forall(k, 0, $i, at(dst, k) == K(old(at(src, k))))
+//@     invariant[bounds: C05 C06 C07] 0 <= $i && $i <= n
+//@     invariant[values: C05 C06 C07] forall(k, 0, $i, at(dst, k) == K(old(at(src, k))))
 //@     invariant sameExcept(dst, 0, $i)
 //@     decreases n - $i
 
 //@ func UnsignedAsUnsigned[S,D](src, dst)
 //@   props C05
-//@   variant C20 len(src.data) == 0 || len(dst.data) == 0
+//@   variant C20 len(src.data) == 0 || len(dst.data) == 0 || src.channels == 0 || dst.channels == 0
+//@   base-excludes src.channels == 0 || dst.channels == 0
 //@   requires wf(src) && wf(dst) && disjoint(src, dst)
 //@   panics-iff[channels: C15] src.channels != dst.channels
 //@   let n = min(len(src.data), len(dst.data))
 //@   hint cdiv_def(len(src.data), src.channels)
 //@   hint cdiv_def(len(dst.data), dst.channels)
-//@   ensures[values: C05] forall(k, 0, n, at(dst, k) == K(old(at(src, k))))
+//@   ensures[values: C05 C06 C07] forall(k, 0, n, at(dst, k) == K(old(at(src, k))))
 //@   ensures[frame: C05 C19 C20] sameExcept(dst, 0, n)
 //@   ensures[count: C05 C20] result == min(ite(src.channels == 0, 0, cdiv(len(src.data), src.channels)),
 //@     | ite(dst.channels == 0, 0, cdiv(len(dst.data), dst.channels)))
@@ -486,13 +498,13 @@ package signal
 //@   ensures[inert: C20] (len(src.data) == 0 || len(dst.data) == 0) ==> result == 0 && heapSame(dst)
 //@   modifies H(dst)
 //@   loop 1 kernel
-//@     invariant 0 <= $i && $i <= n
-//@     invariant forall(k, 0, $i, at(dst, k) == K(old(at(src, k))))
+//@     invariant[bounds: C05 C06 C07] 0 <= $i && $i <= n
+//@     invariant[values: C05 C06 C07] forall(k, 0, $i, at(dst, k) == K(old(at(src, k))))
 //@     invariant sameExcept(dst, 0, $i)
 //@     decreases n - $i
 //@   loop 2 kernel
-//@     invariant 0 <= $i && $i <= n
-//@     invariant forall(k, 0, $i, at(dst, k) == K(old(at(src, k))))
+//@     invariant[bounds: C05 C06 C07] 0 <= $i && $i <= n
+//@     invariant[values: C05 C06 C07] forall(k, 0, $i, at(dst, k) == K(old(at(src, k))))
 //@     invariant sameExcept(dst, 0, $i)
 //@     decreases n - $i
 
@@ -512,6 +524,7 @@ package signal
 //@   insts named
 //@   theory defined
 //@   variant C20 a.Channels == 0 || a.Capacity == 0 || a.Length == 0
+//@   base-excludes a.Channels == 0
 //@   requires 0 <= a.Channels && 0 <= a.Length && a.Length <= a.Capacity && bi(a.Channels, 0, a.Capacity) <= pow2(48)
 //@   ensures[fresh: C13 C10] fresh(result) && freshStorage(result)
 //@   ensures[shape: C13 C10 C20] result.channels == a.Channels && len(result.data) == bi(a.Channels, 0, a.Length)
@@ -533,6 +546,7 @@ package signal
 //@   props C03 C12
 //@   theory defined
 //@   variant C20 channels == 0
+//@   base-excludes channels == 0
 //@   let s = anyDataPtr(int8)
 //@   requires[wfBase] wfBase(bufOf(s))
 //@   requires[channels] channels == bufOf(s).channels
@@ -547,7 +561,8 @@ package signal
 
 //@ func Buffer.Append(dst, src)
 //@   props C03 C12
-//@   variant C20 len(src.data) == 0 && len(dst.data) == 0
+//@   variant C20 (len(src.data) == 0 && len(dst.data) == 0) || dst.channels == 0 || src.channels == 0
+//@   base-excludes dst.channels == 0 || src.channels == 0
 //@   requires wf(dst) && wf(src)
 //@   requires src == dst || spareDisjoint(src, dst)
 //@   panics-iff[channels: C15] dst.channels != src.channels
@@ -586,6 +601,7 @@ package signal
 //@   props C01
 //@   theory axioms
 //@   variant C20 len(dst.data) == 0
+//@   base-excludes dst.channels == 0
 //@   hint bi_zero(dst.channels)
 //@   requires wf(dst) && aligned(dst)
 //@   requires forall(c, 0, len(src), disjoint(src[c], dst))
@@ -629,6 +645,7 @@ package signal
 //@   props C01
 //@   theory axioms
 //@   variant C20 len(src.data) == 0
+//@   base-excludes src.channels == 0
 //@   requires wf(src) && aligned(src)
 //@   requires forall(c, 0, len(dst), disjoint(src, dst[c]))
 //@   requires forall(a, 0, len(dst), forall(b, 0, len(dst), a != b ==> disjoint(dst[a], dst[b])))
